@@ -89,10 +89,10 @@ pub fn pages_strat(with_noise: bool) -> BoxedStrategy<Vec<Page>> {
 
 fn strat(_: &Ctx) -> BoxedStrategy<Case> {
     let chain = prop_oneof![Just(Chain::Paged), Just(Chain::EntriesOnlyPaged), Just(Chain::PagedEntriesOnly)];
-    let opts = proptest::option::of((0u8..4, any::<bool>(), 0i32..=i32::MAX, 0i32..1000));
+    let opts = proptest::option::of((0u8..4, any::<bool>(), prop_oneof![2 => 0i32..=i32::MAX, 2 => 0i32..30, 1 => proptest::sample::select(&[0i32, 1, 2, 127, 128, 1000, i32::MAX][..])], 0i32..1000));
     let ctrls = proptest::option::weighted(0.5, vec((c19::ctl_oid().prop_filter("not paging", |o| o != PAGED_OID), any::<bool>(), proptest::option::of(gens::blob(8))).prop_map(|(oid, crit, val)| Ctl { oid, crit, val }), 0..3));
     (
-        (pages_strat(true), respgen::small_res(), prop_oneof![1i32..20, 1i32..=1000], chain),
+        (pages_strat(true), respgen::small_res(), prop_oneof![4 => 1i32..20, 4 => 1i32..=1000, 1 => proptest::sample::select(&[1i32, 127, 128, 32768, i32::MAX][..])], chain),
         (gens::text(10), 0u8..3, c08::valid_filter_string(2, 3), vec(gens::descr(), 0..4)),
         (opts, ctrls, proptest::bool::weighted(0.07), proptest::option::weighted(0.2, 0u8..10), any::<u64>()),
     )
